@@ -291,7 +291,18 @@ impl Node {
                         }
                     }
                     Err(e) => {
-                        if e.to_string().contains("Decode error") {
+                        // A frame is read completely before it is decoded, so one that cannot be
+                        // understood (bad term, wrong marker, invalid control tuple) says nothing
+                        // about the frames after it. Only transport-level failures end the loop.
+                        let transport_failure = matches!(
+                            e,
+                            edp_client::Error::Io(_)
+                                | edp_client::Error::Timeout(_)
+                                | edp_client::Error::MessageTooLarge { .. }
+                                | edp_client::Error::ConnectionClosed
+                                | edp_client::Error::UnexpectedEof { .. }
+                        );
+                        if !transport_failure {
                             tracing::warn!(
                                 "Failed to decode message from {} (likely unsupported message type): {}",
                                 remote_node,
